@@ -1,5 +1,7 @@
 pub mod c01;
 pub mod c03;
+pub mod c04;
+pub mod c05;
 pub mod c06;
 pub mod c08;
 pub mod c09;
@@ -10,6 +12,8 @@ pub fn lookup(id: &str) -> Option<Box<dyn Prop>> {
     Some(match id {
         "C01" => Box::new(c01::C01),
         "C03" => Box::new(c03::C03),
+        "C04" => Box::new(c04::C04),
+        "C05" => Box::new(c05::C05),
         "C06" => Box::new(c06::C06),
         "C08" => Box::new(c08::C08),
         "C09" => Box::new(c09::C09),
